@@ -3,6 +3,7 @@ import XeofsProofs.Lemmas.ScalerAlg
 import XeofsProofs.Lemmas.Scale
 import XeofsModel.Scaler
 import XeofsModel.Generated.Facts
+import Mathlib.Analysis.SpecialFunctions.Trigonometric.Basic
 /-!
 # C08 — centring, standardisation, weights, coslat and global scale mean exactly what the options say
 -/
@@ -79,5 +80,19 @@ example : ((2 : ℝ) * 3 - 2 * 1) / max (2 * 4) (1 / 8) = (3 - 1) / max 4 (1 / 8
   standardize_unit_invariant_above_floor 3 1 4 (1 / 8) 2 (by norm_num) (by norm_num) (by norm_num)
 
 theorem src_std_floor_absolute : Gen.scalerStdFloorIsAbsolute = true := by decide
+
+/-- **latitude weights are strictly positive away from the poles and never negative**: `sqrt(clip(cos φ, 0, 1))` with the source's
+formula; at the poles the exact value is 0 and the floating-point value a tiny positive number, so weighting stays invertible
+exactly where `cos φ > 0` -/
+theorem coslat_weight_pos (φ : ℝ) (h : φ ∈ Set.Ioo (-(Real.pi / 2)) (Real.pi / 2)) :
+    0 < Gen.coslatWeightOfCos (Real.cos φ) (max 0 (min (Real.cos φ) 1)) := by
+  have hc : 0 < Real.cos φ := Real.cos_pos_of_mem_Ioo h
+  have : 0 < max 0 (min (Real.cos φ) 1) := lt_max_of_lt_right (lt_min hc one_pos)
+  simpa [Gen.coslatWeightOfCos, Num.sqrt] using Real.sqrt_pos.mpr this
+
+theorem coslat_weight_nonneg (c : ℝ) : 0 ≤ Gen.coslatWeightOfCos c (max 0 (min c 1)) := by
+  simp [Gen.coslatWeightOfCos, Num.sqrt, Real.sqrt_nonneg]
+
+theorem src_coslat_formula : Gen.coslatWeightIsSqrtOfClippedCos = true ∧ Gen.coslatClipBounds = (0, 1) := by decide
 
 end C08
